@@ -29,6 +29,15 @@ Definition npint_fits (dt : dtype) (adv : bool) (raw : rawval) : bool :=
   | _, _ => true
   end.
 
+(* domain clause: not a one-element array (ndim > 0) assigned to one element of a BOOLEAN DOK
+   (NumPy takes its truth value; _setitem raises ValueError — implied by the value-ndim clause of
+   Model/DOK.v, stated separately to keep the two conversions syntactically equal) *)
+Definition np_value_id (dt : dtype) (sh : shape) (k : key) (vsh : list Z) : bool :=
+  match vsh with
+  | [] => true
+  | _ => negb (dt_is_bool dt && elem_key sh k && forallb (Z.eqb 1) vsh)
+  end.
+
 Inductive hop :=
 | HAssign (k : key) (raw : rawval)
 | HRoundtrip.
@@ -57,7 +66,7 @@ Definition np_hstep (dt : dtype) (sh : shape) (a : idx -> Z) (o : hop) : idx -> 
   match o with
   | HAssign k raw =>
     match np_cast dt (key_adv k) raw with
-    | Some (Ok (vsh, vflat)) => np_assign sh a (k, arr_of_flat vsh vflat)
+    | Some (Ok v) => let v' := np_value dt sh k v in np_assign sh a (k, arr_of_flat (fst v') (snd v'))
     | _ => a
     end
   | HRoundtrip => a
@@ -74,7 +83,7 @@ Definition hop_dom (dt : dtype) (sh : shape) (o : hop) : bool :=
   | HAssign k raw =>
     npint_fits dt (key_adv k) raw &&
     match np_cast dt (key_adv k) raw with
-    | Some (Ok (vsh, vflat)) => op_dom sh (k, arr_of_flat vsh vflat)
+    | Some (Ok (vsh, vflat)) => np_value_id dt sh k vsh && op_dom sh (k, arr_of_flat vsh vflat)
     | Some (Raise _) => true
     | None => false
     end
